@@ -250,7 +250,7 @@ def decor(f, gf, gft, si, mh, bm, bn, er, ex, et, hx, ht, sx, st, blk, rl=0, xl=
 
 
 def tabs(length):
-    """export_tabs: 1-3 tabs in the three documented bands, for every integer length (unbounded)"""
+    """export_tabs: 1-3 tabs in the three documented bands, for every length >= 0 (unbounded above; a field length is never negative)"""
     r = treeoutput.export_tabs(length)
     if length < 8:
         exp = "\t\t\t"
@@ -293,6 +293,6 @@ def conds(tier):
                        fixed={"m": m, "n": n}, pre=[e1_wf_expr(m, n), "f == 0 or not four"], shard=["f"],
                        timeout=400 if q else 2400, functions=FUNCS,
                        note="two trees written in sequence by the same writer"))
-    cs.append(Cond("tabs", "harness.c02:tabs", [P("length", "int", None, None)], timeout=60,
+    cs.append(Cond("tabs", "harness.c02:tabs", [P("length", "int", 0, None)], timeout=60,
                    functions=["treeoutput.export_tabs"], note="unbounded integer length"))
     return cs
